@@ -17,7 +17,7 @@ import (
 
 // TokSpec is one token of a C10 sequence with its trimming.
 type TokSpec struct {
-	Kind    int    `json:"kind"` // 0 Rune '(' 1 Op "==" 2 Word "let" 3 Integer 4 String 5 Many1(b) 6 Any(a,ab) 7 Choice(',',Empty) 8 Empty
+	Kind    int    `json:"kind"` // 0 Rune '(' 1 Op "==" 2 Word "let" 3 Integer 4 String 5 Many1(b) 6 Any(a,ab) 7 Choice(',',Empty) 8 Empty 9 Choice(LeftTrim('(',Left),'[')
 	Text    string `json:"text"`
 	Left    int    `json:"left"`              // -1: no LeftTrim, else the mode
 	Right   int    `json:"right"`             // -1: no RightTrim, else the mode
@@ -119,6 +119,11 @@ func matchTok(d []byte, i int, ts TokSpec) (int, bool) {
 			e++
 		}
 		return e, e > i
+	case 9: // '(' or '[' (the whitespace in front of '(' is the model's business)
+		if i < len(d) && (d[i] == '(' || d[i] == '[') {
+			return i + 1, true
+		}
+		return i, false
 	case 7: // an optional comma: Choice(',', Empty())
 		if i < len(d) && d[i] == ',' {
 			return i + 1, true
@@ -230,6 +235,12 @@ func tokParser(ts TokSpec) parsley.Parser {
 		p = combinator.Many1(terminal.Op("b"))
 	case 6:
 		p = combinator.Any(terminal.Op("a"), terminal.Op("ab"))
+	case 9:
+		p = combinator.Choice(text.LeftTrim(terminal.Rune('('), text.WsMode(ts.Left)), terminal.Rune('['))
+		if ts.Right >= 0 {
+			p = text.RightTrim(p, text.WsMode(ts.Right))
+		}
+		return p
 	case 7:
 		p = combinator.Choice(terminal.Rune(','), parser.Empty())
 	case 8:
@@ -265,6 +276,23 @@ func modelC10(d []byte, toks []TokSpec) c10Model {
 		left, right := ts.Left, ts.Right
 		if ts.UseTrim {
 			left, right = 2, 2
+		}
+		if ts.Kind == 9 {
+			// Choice(LeftTrim('(', mode), '['): the first alternative's whitespace error stands when
+			// the second alternative does not match where the choice started
+			e, ok, eo, _ := judgeRun(d, cur, ts.Left)
+			switch {
+			case e < len(d) && d[e] == '(' && ok:
+				cur = e
+			case e < len(d) && d[e] == '(':
+				m.wantErr, m.wantOff = wsErrText[ts.Left], eo
+				return m
+			case cur < len(d) && d[cur] == '[':
+			default:
+				m.mismatch = true
+				return m
+			}
+			left = -1
 		}
 		if left >= 0 {
 			e, ok, eo, len := judgeRun(d, cur, left)
@@ -365,6 +393,11 @@ func checkC10(ci interface{}, st *Stats) error {
 	for _, t := range c.Toks {
 		if t.Kind == 6 && t.Right >= 0 && t.Right != 2 {
 			return Discard{"a mode that can fail on the right of a two-result token (RightTrim keeps only the last reading's verdict: outside the property)"}
+		}
+	}
+	for _, t := range c.Toks {
+		if t.Kind == 9 && (t.Left < 0 || t.UseTrim || hasAmbiguousTok(c.Toks)) {
+			return Discard{"a choice token needs its inner mode and no two-result neighbour"}
 		}
 	}
 	m := modelC10(d, c.Toks)
@@ -531,7 +564,7 @@ func genC10(t *rapid.T) interface{} {
 	mode := func(label string) int { return rapid.SampledFrom([]int{0, 1, 1, 2, 2, 2, 3}).Draw(t, label) }
 	for i := 0; i < n; i++ {
 		ts := TokSpec{Left: -1, Right: -1}
-		ts.Kind = rapid.SampledFrom([]int{0, 1, 2, 3, 4, 0, 1, 2, 3, 4, 5, 5, 6, 7, 7, 8}).Draw(t, "kind")
+		ts.Kind = rapid.SampledFrom([]int{0, 1, 2, 3, 4, 0, 1, 2, 3, 4, 5, 5, 6, 7, 7, 8, 9, 9}).Draw(t, "kind")
 		switch ts.Kind {
 		case 0:
 			ts.Text = "("
@@ -547,6 +580,8 @@ func genC10(t *rapid.T) interface{} {
 			ts.Text = rapid.SampledFrom([]string{"b", "bb", "bbb"}).Draw(t, "bs")
 		case 6:
 			ts.Text = rapid.SampledFrom([]string{"a", "ab", "ab"}).Draw(t, "amb")
+		case 9:
+			ts.Text = rapid.SampledFrom([]string{"(", "(", "["}).Draw(t, "paren")
 		case 7:
 			ts.Text = rapid.SampledFrom([]string{",", ""}).Draw(t, "comma")
 		case 8:
@@ -564,6 +599,13 @@ func genC10(t *rapid.T) interface{} {
 		}
 		if ts.Kind == 6 && ts.Right >= 0 {
 			ts.Right = 2
+		}
+		if ts.Kind == 9 {
+			// the left mode lives inside the choice, on its first alternative
+			ts.UseTrim = false
+			if ts.Left < 0 {
+				ts.Left = mode("lm9")
+			}
 		}
 		c.Toks = append(c.Toks, ts)
 	}
